@@ -275,6 +275,24 @@ def run(ck, facts, tier):
                                     statics.append(last[1]["def"])
                 for sdef in statics:
                     tests.append((cand, bs[1], sdef))
+        if not tests:
+            # the whitelist in a private helper: `if has_usize_compatible_datatype(term) { lex.parse() }` — the statics compared with the
+            # term's datatype inside the helper are tested on the helper's true edge
+            for cand in range(len(fn.blocks)):
+                bs = bool_switch(fn, cand)
+                if not bs or bs[0][0] != "call":
+                    continue
+                helper = facts.fns.get(bs[0][1]["f"].get("res") or bs[0][1]["f"].get("def") or "")
+                if helper is None or helper.crate != fn.crate or helper is fn:
+                    continue
+                for u in facts.with_closures(helper):
+                    for _, ct in u.calls():
+                        if call_name_matches(ct, r"term::Term::eq$|Term>::eq$|cmp::PartialEq.*::eq$") and \
+                                any(comes_from_call(u, a, r"Term::datatype$|Term>::datatype$") for a in ct["args"]):
+                            for a in ct["args"]:
+                                last = provenance(u, a)[-1]
+                                if last[0] == "const" and last[1].get("kind") == "static":
+                                    tests.append((cand, bs[1], last[1]["def"]))
         names = {s.split("::")[-1] for _, _, s in tests}
         for _, ct in fn.calls():
             if call_name_matches(ct, r"term::Term::eq$|Term>::eq$|cmp::PartialEq.*::eq$") and \
@@ -299,14 +317,56 @@ def run(ck, facts, tier):
                 ck.ok("R20.2", "%s: bounds tested for %s" % (ty, loose))
         if ty == "f64":
             units = facts.with_closures(fn)
-            prevalid = any(re.search(r"Regex::is_match$|::all$|::any$|::bytes$|::chars$|is_ascii_digit$|::contains$|::find$", (t_["f"].get("name") or ""))
-                           for u in units for _, t_ in u.calls())
+            # the examination has to *decide* whether the form is parsed: every `parse` of the function is dominated by a boolean
+            # decision computed by a recogniser of the lexical form (a look at the string after the fact, e.g. to normalise a zero,
+            # examines nothing)
+            recog = r"Regex::is_match$|::all$|::any$|is_ascii_digit$|::contains$|::find$|::starts_with$|::ends_with$|::strip_(pre|suf)fix$|::matches$"
+            f_parses = [bi for bi, t_ in fn.calls() if call_name_matches(t_, r"str>::parse$")]
+            doms = fn.dominators()
+
+            def decided(pb):
+                for cand in doms.get(pb, ()):
+                    bs_ = bool_switch(fn, cand)
+                    if bs_ and bs_[0][0] == "call" and re.search(recog, bs_[0][1]["f"].get("name") or ""):
+                        return True
+                return False
+            prevalid = bool(f_parses) and all(decided(pb) for pb in f_parses)
             if not prevalid:
                 ck.bad("R20.2", key + "#lexical-space-unchecked", "the conversion to f64 hands the lexical form to Rust's float parser whatever the datatype: "
                        "`inf`, `Infinity`, `nan`, `-NaN` (not XSD forms) convert for xsd:double / xsd:float, `NaN`, `INF` and `1e3` convert for "
                        "xsd:decimal, and a well-typed decimal of 400 digits converts to inf", fn.loc)
             else:
                 ck.ok("R20.2", "f64: the lexical form is examined before it is parsed")
+        if ty == "f64":
+            # R20.4: xsd:decimal has a single zero; Rust's float grammar (the lexical mapping of xsd:double) gives "-0" the sign bit.
+            # The decimal branch must not share its parse with the double branch, and must compare the result with zero.
+            by_dt = {}
+            for cand, tgt, sdef in tests:
+                by_dt.setdefault(sdef.split("::")[-1], set()).update(
+                    bi for bi, t_ in fn.calls() if call_name_matches(t_, r"str>::parse$") and bi in fn.reachable(tgt))
+            if "decimal" in by_dt and "double" in by_dt:
+                units = facts.with_closures(fn)
+
+                def zero_cmp(u):
+                    for b_ in u.blocks:
+                        for st_ in b_["s"]:
+                            if st_[0] == "=" and st_[2][0] == "bin" and st_[2][1] in ("Eq", "Ne"):
+                                for op in st_[2][2:4]:
+                                    if op[0] == "k" and op[1].get("kind") == "float" and float(op[1].get("v", "1") or 1) == 0.0:
+                                        return True
+                                    if op[0] == "k" and re.match(r"^-?0(\.0*)?(_?f64)?$", str(op[1].get("dbg", ""))):
+                                        return True
+                    return False
+                shared = by_dt["decimal"] & by_dt["double"]
+                if shared or not any(zero_cmp(u) for u in units):
+                    ck.bad("R20.4", "R20.4@f64#decimal-zero-sign", "the conversion to f64 parses xsd:decimal with the lexical mapping of xsd:double (%s): "
+                           "\"-0\", \"-0.0\", \"-.0\" typed xsd:decimal denote the single zero of the decimal value space but convert to the "
+                           "negative zero (sign bit set, 1/x = -inf), so \"0.0\" and \"-0.0\" give two different native values"
+                           % ("the two branches share one parse" if shared else "no comparison of the result with zero"), fn.loc)
+                else:
+                    ck.ok("R20.4", "f64: xsd:decimal has its own parse and normalises zero")
+            else:
+                ck.ok("R20.4", "f64: xsd:decimal and xsd:double are not both accepted (nothing to decide)", nontrivial=False)
         extra = names - allowed
         if extra:
             ck.bad("R20.2", key + "#whitelist", "%s accepts datatypes %s whose values do not embed in %s" % (ty, sorted(extra), ty), fn.loc)
